@@ -104,7 +104,7 @@ def gen(ctx):
 
 
 def run(ctx):
-    gen(ctx)
+    ctx.guard("regenerate", gen, ctx)
     ok = ctx.lean_build(["HitenModel.Props.C03"])
     if ok:
         ctx.lean_audit(["HitenModel.Props.C03"], ["HitenModel.Props.C03", "HitenModel.Gen.C03", "HitenModel.Lemmas.Symplectic"])
